@@ -40,7 +40,34 @@ MmCmp(a, b) ==
       c == SeqCmp(x.core, y.core, NumCmp) IN
   IF c # 0 THEN c ELSE IF x.kind # y.kind THEN Sign(x.kind - y.kind) ELSE NumCmp(x.num, y.num)
 
-DocEcos == {"cran", "mattermost"}
-DocScope(eco, cs) == CASE eco = "cran" -> CranScope(cs) [] eco = "mattermost" -> MmScope(cs) [] OTHER -> FALSE
-DocCmp(eco, a, b) == CASE eco = "cran" -> CranCmp(a, b) [] eco = "mattermost" -> MmCmp(a, b) [] OTHER -> 2
+\* apache (the package's own table): MAJOR.MINOR.PATCH[-<letters><digits>]; the core compares numerically; for one core
+\* alpha < beta < m = milestone < rc < snapshot < dev < any other word < the plain release (letter case ignored); the
+\* number (absent = 0) orders within a rank - all "other words" share one rank.
+ApWord(w) == LET x == LowerSeq(w) IN
+  CASE x = <<97, 108, 112, 104, 97>> -> 1                                   \* alpha
+    [] x = <<98, 101, 116, 97>> -> 2                                        \* beta
+    [] x = <<109>> \/ x = <<109, 105, 108, 101, 115, 116, 111, 110, 101>> -> 3   \* m, milestone
+    [] x = <<114, 99>> -> 4                                                 \* rc
+    [] x = <<115, 110, 97, 112, 115, 104, 111, 116>> -> 5                   \* snapshot
+    [] x = <<100, 101, 118>> -> 6                                           \* dev
+    [] OTHER -> 99
+ApParse(cs) ==
+  LET t    == Trim(cs)
+      h    == IndexOf(t, 45)
+      core == SplitAt(IF h = 0 THEN t ELSE SubSeq(t, 1, h - 1), 46)
+      q    == IF h = 0 THEN <<>> ELSE SubSeq(t, h + 1, Len(t))
+      e    == FirstNotAt(q, 1, IsAlpha)
+  IN [core |-> core, hasq |-> h # 0, word |-> SubSeq(q, 1, e - 1), num |-> SubSeq(q, e, Len(q))]
+ApScope(cs) == LET x == ApParse(cs) IN
+                 /\ Len(x.core) = 3 /\ \A i \in 1..3 : x.core[i] # <<>> /\ AllDigits(x.core[i])
+                 /\ (x.hasq => x.word # <<>> /\ AllDigits(x.num))
+ApRank(x) == IF x.hasq THEN ApWord(x.word) ELSE 100
+ApCmp(a, b) ==
+  LET x == ApParse(a)  y == ApParse(b)
+      c == SeqCmp(x.core, y.core, NumCmp) IN
+  IF c # 0 THEN c ELSE IF ApRank(x) # ApRank(y) THEN Sign(ApRank(x) - ApRank(y)) ELSE NumCmp(x.num, y.num)
+
+DocEcos == {"cran", "mattermost", "apache"}
+DocScope(eco, cs) == CASE eco = "cran" -> CranScope(cs) [] eco = "mattermost" -> MmScope(cs) [] eco = "apache" -> ApScope(cs) [] OTHER -> FALSE
+DocCmp(eco, a, b) == CASE eco = "cran" -> CranCmp(a, b) [] eco = "mattermost" -> MmCmp(a, b) [] eco = "apache" -> ApCmp(a, b) [] OTHER -> 2
 =============================================================================
